@@ -153,7 +153,7 @@ Raise(st, sid, c) ==
 (***************************************************************************)
 (* Expressions.  Eval(e, st) = [v |-> value or error, st |-> state after]   *)
 (***************************************************************************)
-RECURSIVE Eval(_, _), EvalSeq(_, _, _, _), Step(_), RunNested(_, _), CallFun(_, _),
+RECURSIVE Eval(_, _), EvalSeq(_, _, _, _), EvalRaw(_, _, _, _), Step(_), RunNested(_, _), CallFun(_, _),
           BindArgs(_, _, _, _, _), ResolveLv(_, _)
 
 R(v, st) == [v |-> v, st |-> st]
@@ -165,6 +165,12 @@ EvalSeq(es, st, j, acc) ==
   ELSE LET r == Eval(es[j], st)
            c == Cast("I", r.v)
        IN IF IsErr(c) THEN R(c, r.st) ELSE EvalSeq(es, r.st, j + 1, Append(acc, c.v))
+
+\* evaluate a sequence of expressions left to right, as they are; result [v |-> <<values>> or the first error, st]
+EvalRaw(es, st, j, acc) ==
+  IF j > Len(es) THEN R([t |-> "Q", v |-> acc], st)
+  ELSE LET r == Eval(es[j], st)
+       IN IF IsErr(r.v) THEN r ELSE EvalRaw(es, r.st, j + 1, Append(acc, r.v))
 
 \* an lvalue resolved to a storage place:
 \*   [key, flat (0 for a scalar), path (record fields), vt (type stored there), fix]
@@ -190,6 +196,47 @@ RECURSIVE GetPath(_, _), SetPath(_, _, _)
 GetPath(v, path) == IF path = <<>> THEN v ELSE GetPath(v.f[Head(path)], Tail(path))
 SetPath(v, path, nv) ==
   IF path = <<>> THEN nv ELSE [v EXCEPT !.f[Head(path)] = SetPath(@, Tail(path), nv)]
+
+\* the built-in functions as functions of their (already evaluated) arguments
+StrRes(r) == IF r.ok THEN Val("$", r.v) ELSE Err(r.c)
+IntRes(r) == IF r.ok THEN Val("I", r.v) ELSE Err(r.c)
+BuiltIn(n, a) ==
+  LET k == Len(a)
+      S(i) == a[i].v                                   \* the i-th argument as a string (checked by the guards below)
+      N(i) == Cast("I", a[i])                          \* the i-th argument as an INTEGER
+      strs(is) == \A i \in is : i <= k /\ IsStr(a[i])
+      nums(is) == \A i \in is : i <= k /\ IsNum(a[i])
+      bad(is) == \E i \in is : IsErr(N(i))
+      firstbad(is) == N(CHOOSE i \in is : IsErr(N(i)) /\ \A j \in is : IsErr(N(j)) => i <= j)
+  IN
+  CASE n = "LEN" /\ k = 1 /\ strs({1}) -> Val("I", Len(S(1)))
+    [] n \in {"LEFT$", "RIGHT$"} /\ k = 2 /\ strs({1}) /\ nums({2}) ->
+         IF bad({2}) THEN N(2) ELSE StrRes(IF n = "LEFT$" THEN StrFn!Left(S(1), N(2).v) ELSE StrFn!Right(S(1), N(2).v))
+    [] n = "MID$" /\ k = 3 /\ strs({1}) /\ nums({2, 3}) ->
+         IF bad({2, 3}) THEN firstbad({2, 3}) ELSE StrRes(StrFn!Mid(S(1), N(2).v, N(3).v, TRUE))
+    [] n = "MID$" /\ k = 2 /\ strs({1}) /\ nums({2}) ->
+         IF bad({2}) THEN N(2) ELSE StrRes(StrFn!Mid(S(1), N(2).v, 0, FALSE))
+    [] n = "INSTR" /\ k = 2 /\ strs({1, 2}) ->
+         IF S(2) = <<>> THEN Err(0) ELSE IntRes(StrFn!Instr(1, S(1), S(2)))
+    [] n = "INSTR" /\ k = 3 /\ nums({1}) /\ strs({2, 3}) ->
+         IF bad({1}) THEN N(1) ELSE IF S(3) = <<>> THEN Err(0) ELSE IntRes(StrFn!Instr(N(1).v, S(2), S(3)))
+    [] n = "UCASE$" /\ k = 1 /\ strs({1}) -> Val("$", StrFn!UCase(S(1)))
+    [] n = "LCASE$" /\ k = 1 /\ strs({1}) -> Val("$", StrFn!LCase(S(1)))
+    [] n = "LTRIM$" /\ k = 1 /\ strs({1}) -> Val("$", StrFn!LTrim(S(1)))
+    [] n = "RTRIM$" /\ k = 1 /\ strs({1}) -> Val("$", StrFn!RTrim(S(1)))
+    [] n = "SPACE$" /\ k = 1 /\ nums({1}) -> IF bad({1}) THEN N(1) ELSE StrRes(StrFn!Space(N(1).v))
+    [] n = "STRING$" /\ k = 2 /\ nums({1, 2}) ->
+         IF bad({1, 2}) THEN firstbad({1, 2}) ELSE StrRes(StrFn!StringN(N(1).v, N(2).v))
+    [] n = "STRING$" /\ k = 2 /\ nums({1}) /\ strs({2}) -> IF bad({1}) THEN N(1) ELSE StrRes(StrFn!StringS(N(1).v, S(2)))
+    [] n = "CHR$" /\ k = 1 /\ nums({1}) ->
+         IF bad({1}) THEN N(1) ELSE IF N(1).v < 0 \/ N(1).v > 255 THEN Err(5) ELSE Val("$", <<N(1).v>>)
+    \* STR$ of a whole number of a whole-number type; VAL gives a DOUBLE
+    [] n = "STR$" /\ k = 1 /\ nums({1}) -> IF a[1].t \in {"I", "L"} THEN Val("$", StrFn!Str(a[1].v)) ELSE Err(0)
+    [] n = "VAL" /\ k = 1 /\ strs({1}) ->
+         IF Len(S(1)) > 9 \/ \E i \in 1..Len(S(1)) : ~(S(1)[i] \in 48..57 \/ S(1)[i] \in {32, 43, 45}) THEN Err(0)
+         ELSE IF \E i \in 2..Len(StrFn!NoBlanks(S(1))) : StrFn!NoBlanks(S(1))[i] \in {43, 45} THEN Err(0)
+         ELSE Val("D", StrFn!Val(S(1)))
+    [] OTHER -> Err(0)
 
 ReadPlace(st, p) ==
   LET root == GetKey(st, p.key) IN
@@ -247,22 +294,11 @@ Eval(e, st) ==
               IF e.sfx # "" /\ e.sfx # c.t THEN R(Err(0 - 2), st)   \* wrong suffix: rejected statically
               ELSE R(c, st)
     [] e.k = "fcall" -> CallFun(e, st)
-    \* built-in string functions (their definitions are those of Strings.tla): LEN(s), LEFT$(s, n), MID$(s, n, m);
-    \* a numeric argument is converted to INTEGER first; a bad argument is Illegal function call (5)
+    \* built-in functions (the definitions of the string functions are those of Strings.tla): the arguments are evaluated
+    \* left to right, then the function is applied; a numeric argument is converted to INTEGER first (STR$ takes the value as it is); a bad argument is Illegal function call (5)
     [] e.k = "bcall" ->
-         LET a1 == Eval(e.args[1], st) IN
-         IF IsErr(a1.v) THEN a1
-         ELSE IF ~IsStr(a1.v) THEN R(Err(0), a1.st)
-         ELSE IF e.n = "LEN" THEN R(Val("I", Len(a1.v.v)), a1.st)
-         ELSE LET a2 == Eval(e.args[2], a1.st)
-                  c2 == Cast("I", a2.v)
-              IN IF IsErr(a2.v) THEN a2 ELSE IF IsErr(c2) THEN R(c2, a2.st)
-                 ELSE IF e.n = "LEFT$" THEN
-                      (LET r == StrFn!Left(a1.v.v, c2.v) IN R(IF r.ok THEN Val("$", r.v) ELSE Err(r.c), a2.st))
-                 ELSE LET a3 == Eval(e.args[3], a2.st)
-                          c3 == Cast("I", a3.v)
-                      IN IF IsErr(a3.v) THEN a3 ELSE IF IsErr(c3) THEN R(c3, a3.st)
-                         ELSE LET r == StrFn!Mid(a1.v.v, c2.v, c3.v, TRUE) IN R(IF r.ok THEN Val("$", r.v) ELSE Err(r.c), a3.st)
+         LET r == EvalRaw(e.args, st, 1, <<>>) IN
+         IF IsErr(r.v) THEN r ELSE R(BuiltIn(e.n, r.v.v), r.st)
 
 (***************************************************************************)
 (* Calls.  Arguments are evaluated left to right in the caller.  An          *)
